@@ -87,6 +87,14 @@ func (p *Program) Verify(fn *ssa.Function, fc *FuncContract, mode Mode, primary,
 			}
 		}
 	}
+	if fn.Synthetic == "package initializer" && fn.Pkg != nil {
+		// the runtime calls a package initialiser once, with its guard variable clear: the body runs
+		if g, ok := fn.Pkg.Members["init$guard"].(*ssa.Global); ok {
+			gv := e.load(st, e.val(g).S, types.Typ[types.Bool])
+			c.assume(not(gv.S))
+			c.notes["package initialiser: entered with init$guard clear (it runs exactly once)"] = true
+		}
+	}
 	e.entry = st.clone()
 	// parameters
 	e.params = map[string]Val{}
@@ -942,6 +950,7 @@ func (e *Encoder) instr(in ssa.Instruction, st *State, pc string) {
 		if ub != "" {
 			c.assume(implies(pc, fmt.Sprintf("(= (%s %s) %s)", ub, v.S, x.S)))
 		}
+		v.Dyn = in.X.Type()
 		e.vals[in] = v
 	case *ssa.TypeAssert:
 		x := e.val(in.X)
